@@ -64,5 +64,26 @@ stands for the set's iteration order (any function returning a permutation of it
 def cacheImports (perm : List ImportInfo → List ImportInfo) (stream : List ImportInfo) : List ImportInfo :=
   sortBy strLe (fun i => i.filepath) (perm (dedupBy importInfoEq stream))
 
+/-- `sorted({…}, key=…)` for an ARBITRARY key (what the pinned code does with `key := filepath`,
+`cacheImports_eq_by`; what a variant sorting on the resolved path / the content hash / the file name
+would do with a coarser key). -/
+def cacheImportsBy {κ : Type} (le : κ → κ → Bool) (key : ImportInfo → κ)
+    (perm : List ImportInfo → List ImportInfo) (stream : List ImportInfo) : List ImportInfo :=
+  sortBy le key (perm (dedupBy importInfoEq stream))
+
+/-- `CacheableImportInfo.from_file(origin)`: `filepath=origin` — the path AS GIVEN by the module spec
+(`Path(origin)`, never resolved: a link and the file it points to are two paths) — and
+`filehash=hash_file_content(origin)`, a function of the path (`hashOf`: the file system is not written
+to during a run). -/
+def infoFromFile (hashOf : Str → Str) (origin : Str) : ImportInfo :=
+  { filepath := origin, filehash := hashOf origin }
+
+/-- The generator of the set comprehension when each `Import` symbol that passes the filters is given
+by its ORIGIN (`none` = filtered out): every member of the stream is made by `from_file`. -/
+def cacheInfoStreamOfOrigins (hashOf : Str → Str) (targetOrigins : List (Option Str))
+    (originsOf : Str → List (Option Str)) (irsKeys : List Str) : List ImportInfo :=
+  cacheInfoStream (targetOrigins.map fun o => o.map (infoFromFile hashOf))
+    (fun n => (originsOf n).map fun o => o.map (infoFromFile hashOf)) irsKeys
+
 end Ser
 end Rattr
